@@ -17,7 +17,7 @@ func init() {
 		Technique: "metamorphic runtime monitor: the same real application run with no option backed by the environment and with a random subset backed by set, valid variables",
 		Rule: "family G: programs and command lines of C01; run once with no env-backed option, once with a random non-empty subset of the declared options backed by a set valid variable; " +
 			"accepted without => accepted with, and (specs without --) identical bound values for every option written on the command line. family R: a required single option absent from the command line must be " +
-			"accepted when its variable is set. family N: the same env-backed option written 1-4 times (any spelling) under [OPTIONS], a folded group, -e..., [-e]..., mixed with other options, must be accepted " +
+			"accepted when its variable is set. family N: the same env-backed option written 1-10 times (any spelling) under [OPTIONS], a folded group, -e..., [-e]..., mixed with other options, must be accepted " +
 			"with all its values bound in order. non-trivial = a pair whose command line names at least one option, or a family R/N case; distinct by (decl, spec, argv, env subset).",
 		Assumptions: []string{
 			"value identity only for specs without a spec-level -- (as the quantifier says); argument distribution may differ (another derivation) and is not compared",
@@ -208,6 +208,9 @@ func c12Repeated(c *core.Ctx) {
 	p := &Prog{Opts: opts, Args: []*ArgDecl{x}, AST: ast}
 	p.Spec = ast.String()
 	n := 1 + c.R.Intn(4)
+	if c.R.Intn(10) == 0 {
+		n = 5 + c.R.Intn(6)
+	}
 	var items []gen.Item
 	var want []string
 	for i := 0; i < n; i++ {
@@ -247,7 +250,11 @@ func c12Repeated(c *core.Ctx) {
 		c.Violation(fmt.Sprintf("option %s written %q, bound %q", e.Dashed()[0], want, got), nil, nil)
 		return
 	}
-	c.Inc(fmt.Sprintf("N_written_%d_times", n))
+	if n > 4 {
+		c.Inc("N_written_5_to_10_times")
+	} else {
+		c.Inc(fmt.Sprintf("N_written_%d_times", n))
+	}
 	if c.WantSample() && n >= 3 {
 		c.Sample(d)
 	}
